@@ -70,7 +70,7 @@ func (q *querier) resolveVersionQuery(ctx context.Context, buildList []module.Ve
 
 func (q *querier) resolveLatestQuery(ctx context.Context, repo vcs.Repository, majorVersion string, query versionQuery) (module.Version, error) {
 	// Find the latest release version.
-	versions, err := repo.Versions(ctx)
+	versions, err := taggedVersions(ctx, repo)
 	if err != nil {
 		return module.Version{}, err
 	}
@@ -124,7 +124,7 @@ func (q *querier) resolvePatchQuery(ctx context.Context, buildList []module.Vers
 	currentVersion := buildList[i]
 	currentMajorMinor := semver.MajorMinor(currentVersion.Version)
 
-	versions, err := repo.Versions(ctx)
+	versions, err := taggedVersions(ctx, repo)
 	if err != nil {
 		return module.Version{}, err
 	}
@@ -143,7 +143,7 @@ func (q *querier) resolveSemverRangeQuery(ctx context.Context, repo vcs.Reposito
 		return module.Version{}, fmt.Errorf("invalid query: %w", err)
 	}
 
-	versions, err := repo.Versions(ctx)
+	versions, err := taggedVersions(ctx, repo)
 	if err != nil {
 		return module.Version{}, err
 	}
@@ -171,7 +171,7 @@ func (q *querier) resolveRefQuery(ctx context.Context, repo vcs.Repository, majo
 	}
 
 	// Find the closest tagged version.
-	versions, err := repo.Versions(ctx)
+	versions, err := taggedVersions(ctx, repo)
 	if err != nil {
 		return module.Version{}, err
 	}
